@@ -2,7 +2,14 @@
 """Regenerates MANIFEST.json from the table below (kept in one place so that it is always valid)."""
 import json, os
 HERE = os.path.dirname(os.path.dirname(os.path.abspath(__file__)))
+ENGINE_NOTE = 'Trusted: the syn->JSON AST dump, the interpreter, the environment models listed in the evidence (extent file model, rkyv header tokens, injective checksum, io_uring queue, fs, clock); the interpreter is differential-tested against the real engine on concrete scripts on every run, every counterexample is replayed natively before it is reported and a sample of passing path classes is replayed as well. Outside the claim: histories longer than the listed skeletons, payload content effects, checksum collisions.'
 CLAIMED = {
+ 'C01': dict(text='Bounded symbolic model checking of the real append/read source (append_for_topic, batch_append_for_topic, read_next, batch_read_for_topic, Writer, allocator, Block, storage): for each operation skeleton every payload size 0..2^30-256 and every byte budget 0..2^64-1 is a solver variable; z3 decides each branch and the exactly-once/in-order/byte-identical/no-skip oracle on every path class; both back ends and both consistency modes.',
+             note=ENGINE_NOTE, technique='source-level symbolic execution of the engine (rs2json AST + z3 bit-vectors, extent storage model), native replay gate', ref='7/C01'),
+ 'C03': dict(text='Same exploration as C01 with the batch-read oracle: at most 2000 entries, total payload within the byte budget unless exactly one entry, and progress whenever an unconsumed entry exists; budgets fully symbolic including 0 and usize::MAX.',
+             note=ENGINE_NOTE, technique='source-level symbolic execution of batch_read_for_topic (z3 bit-vectors), native replay gate', ref='7/C03'),
+ 'C15': dict(text='Same exploration with the count oracle: after every operation get_topic_entry_count equals appended minus consumed entries, decided by z3 on every path class.',
+             note=ENGINE_NOTE, technique='source-level symbolic execution (z3), native replay gate', ref='7/C15'),
  'C25': dict(text='Bounded symbolic model checking of the real wal_key/parse_wal_key source: for every topic length 0..12 (quick) / 0..40 (thorough) of arbitrary Unicode scalar values and every u64 segment, z3 shows the round trip returns the same pair; every counterexample is replayed through the real functions before it is reported.',
              note='Trusted: the syn->JSON AST dump, the interpreter, four std string models (format!, rsplitn, strip_prefix, parse::<u64>) which are differential-tested against the real functions on every run; strings longer than the bound are outside the claim.',
              technique='source-level symbolic execution (rs2json AST + z3, strings as code-point vectors, digits as Int variables), native replay gate', ref='7/C25'),
